@@ -1,6 +1,739 @@
-//! C12 — stub: correspondence harness not built yet.
+//! C12 — relevance scores are BM25 over the searcher's statistics; explain agrees.
+//!
+//! (A) formula level: `Bm25Weight::{for_one_term, boost_by, score, max_score, explain}` and
+//!     `FieldNormReader::{id_to_fieldnorm, fieldnorm_to_id}` (all public) vs `Model/Bm25.lean`
+//!     evaluated in Float32 — bit for bit, sweeping all 256 field-norm codes.
+//! (B) index level: the same generated documents indexed under 1..6 segmentations (no deletes);
+//!     the inputs of the formula (N, total tokens, doc_freq, tf, fieldnorm id) read through the
+//!     public API AND recomputed from the generated documents; scores from TopDocs, from a
+//!     scoring custom collector and from `Query::explain` compared with the model: bit for bit
+//!     for single scoring clauses (term, boosted term, const) and for sums / dis-max of at most
+//!     two matching clauses (IEEE addition is commutative), within 4 ulp per clause otherwise;
+//!     single-clause scores bit-identical across segmentations.
+use crate::rng::Rng;
 use crate::Ctx;
+use serde_json::{json, Value};
+use std::collections::HashMap;
+use std::panic::{catch_unwind, AssertUnwindSafe};
+use tantivy::collector::{Collector, SegmentCollector, TopDocs};
+use tantivy::fieldnorm::FieldNormReader;
+use tantivy::merge_policy::NoMergePolicy;
+use tantivy::query::{
+    Bm25StatisticsProvider, Bm25Weight, BooleanQuery, BoostQuery, ConstScoreQuery, DisjunctionMaxQuery,
+    Occur, Query, TermQuery,
+};
+use tantivy::schema::{Field, IndexRecordOption, Schema, FAST, TEXT};
+use tantivy::postings::Postings;
+use tantivy::{DocAddress, DocId, DocSet, Index, IndexWriter, Score, Searcher, SegmentReader, TantivyDocument, Term};
+
+const VOCAB: [&str; 6] = ["a", "b", "c", "d", "e", "z"];
+
+fn ulp_tol(units: usize, a: f32, b: f32) -> f32 {
+    4.0 * units as f32 * f32::EPSILON * a.abs().max(b.abs()).max(f32::MIN_POSITIVE)
+}
+
+fn bits(x: f32) -> String {
+    x.to_bits().to_string()
+}
+
+// ---------------------------------------------------------------------------------------------
+// (A) formula level
+// ---------------------------------------------------------------------------------------------
+
+fn model_term(ctx: &mut Ctx, n_docs: u64, tokens: u64, n: u64, fid: u8, tf: u32, boost: f32) -> Option<[f32; 6]> {
+    let r = ctx.model.ask(&format!("C12 term {n_docs} {tokens} {n} {fid} {tf} {}", bits(boost)));
+    let v: Vec<u32> = r.split(' ').filter_map(|x| x.parse().ok()).collect();
+    if v.len() != 6 {
+        return None;
+    }
+    Some([f32::from_bits(v[0]), f32::from_bits(v[1]), f32::from_bits(v[2]), f32::from_bits(v[3]), f32::from_bits(v[4]), f32::from_bits(v[5])])
+}
+
+/// idf as reported in the explanation tree of the real weight (to localise a mismatch)
+fn real_idf(w: &Bm25Weight) -> Option<f32> {
+    let v: Value = serde_json::from_str(&w.explain(1, 1).to_pretty_json()).ok()?;
+    for d in v["details"].as_array()? {
+        if d["description"].as_str()?.starts_with("idf") {
+            return Some(d["value"].as_f64()? as f32);
+        }
+    }
+    None
+}
+
+fn formula_case(ctx: &mut Ctx, n_docs: u64, tokens: u64, n: u64, fid: u8, tf: u32, boost: f32) {
+    let case = json!({"kind": "formula", "N": n_docs, "tokens": tokens, "n": n, "fid": fid, "tf": tf, "boost_bits": boost.to_bits()});
+    ctx.report.case(&format!("formula|{n_docs}|{tokens}|{n}|{fid}|{tf}|{}", boost.to_bits()), fid > 0 && tf > 0 && n < n_docs);
+    ctx.report.count("formula-cases");
+    let avg = tokens as Score / n_docs as Score;
+    let real = catch_unwind(AssertUnwindSafe(|| {
+        let w0 = Bm25Weight::for_one_term(n, n_docs, avg);
+        let w = w0.boost_by(boost);
+        (w.score(fid, tf), w0.explain(fid, tf).value() * boost, w.max_score(), real_idf(&w0))
+    }));
+    let Ok((score, explain, max_score, idf)) = real else {
+        ctx.report.violation("oracle", "C12:formula-panic", format!("Bm25Weight panicked on N={n_docs} n={n}"), case);
+        return;
+    };
+    let Some(m) = model_term(ctx, n_docs, tokens, n, fid, tf, boost) else {
+        ctx.report.violation("model", "C12:model-bad-op", "model refused a formula request".into(), case);
+        return;
+    };
+    if score.to_bits() != m[0].to_bits() || max_score.to_bits() != m[5].to_bits() {
+        let step = match idf {
+            Some(i) if i.to_bits() != m[2].to_bits() => format!("idf differs: real {i:?}/{:08x} model {:?}/{:08x} ({} ulp; ln of the platform)", i.to_bits(), m[2], m[2].to_bits(), (i.to_bits() as i64 - m[2].to_bits() as i64).abs()),
+            _ => "idf agrees; the tf factor / weight arithmetic differs".to_string(),
+        };
+        ctx.report.violation("model", "C12:formula-bits-differ", format!("Bm25Weight::score(fid={fid}, tf={tf}) N={n_docs} n={n} tokens={tokens} boost={boost}: real {score:?}/{:08x} model {:?}/{:08x}; max_score real {max_score:?} model {:?}; {step}", score.to_bits(), m[0], m[0].to_bits(), m[5]), case);
+        return;
+    }
+    if explain.to_bits() != m[1].to_bits() {
+        ctx.report.violation("model", "C12:explain-bits-differ", format!("explain value (unboosted score × boost) real {explain:?} model {:?}", m[1]), case);
+    }
+}
+
+fn part_a(ctx: &mut Ctx) {
+    // field-norm table and quantisation, all 256 codes and their neighbourhoods
+    let mut mismatches = 0;
+    for id in 0..=255u8 {
+        let f = FieldNormReader::id_to_fieldnorm(id);
+        let m = ctx.model.ask(&format!("C12 fn {id}"));
+        ctx.report.case(&format!("fn|{id}"), true);
+        if m != f.to_string() {
+            mismatches += 1;
+            ctx.report.violation("model", "C12:fieldnorm-table-differs", format!("id_to_fieldnorm({id}) = {f}, model {m}"), json!({"kind": "fn", "id": id}));
+        }
+        for probe in [f, f.saturating_sub(1), f.saturating_add(1)] {
+            let real = FieldNormReader::fieldnorm_to_id(probe);
+            let m = ctx.model.ask(&format!("C12 fnid {probe}"));
+            ctx.report.case(&format!("fnid|{probe}"), true);
+            if m != real.to_string() {
+                mismatches += 1;
+                ctx.report.violation("model", "C12:fieldnorm-to-id-differs", format!("fieldnorm_to_id({probe}) = {real}, model {m}"), json!({"kind": "fnid", "fieldnorm": probe}));
+            }
+            // oracle on the implementation alone: bracket property
+            let lo = FieldNormReader::id_to_fieldnorm(real);
+            let ok = lo <= probe && (real == 255 || probe < FieldNormReader::id_to_fieldnorm(real + 1));
+            if !ok {
+                ctx.report.violation("oracle", "C12:fieldnorm-bracket", format!("fieldnorm_to_id({probe}) = {real} does not bracket the length"), json!({"kind": "fnid", "fieldnorm": probe}));
+            }
+        }
+    }
+    ctx.report.count_n("fieldnorm-mismatches", mismatches);
+    let mut rng = ctx.rng.fork();
+    let n_stats = ctx.budget(12, 200);
+    for _ in 0..n_stats {
+        let n_docs = match rng.below(5) { 0 => 1 + rng.below(5), 1 => 1 + rng.below(1000), 2 => 1 + rng.below(100_000), 3 => 16_777_216 + rng.below(1000), _ => 1 + rng.below(5_000_000) };
+        let n = match rng.below(4) { 0 => n_docs, 1 => 1.min(n_docs), 2 => 0, _ => rng.below(n_docs + 1) };
+        let tokens = match rng.below(4) { 0 => n_docs, 1 => n_docs * (1 + rng.below(500)), 2 => rng.below(n_docs * 3 + 1) + 1, _ => 1 + rng.below(1 << 33) };
+        let boost = [1.0f32, 1.0, 2.0, 0.5, 3.3, 0.1][rng.usize_below(6)];
+        // all 256 codes for this set of statistics
+        for fid in 0..=255u8 {
+            let tf = match rng.below(6) { 0 => 1, 1 => 2, 2 => 1 + rng.below(20) as u32, 3 => FieldNormReader::id_to_fieldnorm(fid).max(1), 4 => u32::MAX, _ => 1 + rng.below(100_000) as u32 };
+            formula_case(ctx, n_docs, tokens, n, fid, tf, boost);
+        }
+    }
+}
+
+// ---------------------------------------------------------------------------------------------
+// (B) index level
+// ---------------------------------------------------------------------------------------------
+
+#[derive(Clone, Debug)]
+struct GenDoc {
+    /// (term index in VOCAB, count); the field length is the sum of the counts
+    counts: Vec<(usize, u32)>,
+}
+
+impl GenDoc {
+    fn len(&self) -> u32 {
+        self.counts.iter().map(|c| c.1).sum()
+    }
+    fn tf(&self, t: usize) -> u32 {
+        self.counts.iter().filter(|c| c.0 == t).map(|c| c.1).sum()
+    }
+    /// occurrences of the two-term phrase `a b` (a != b): adjacent runs
+    fn phrase_count(&self, a: usize, b: usize) -> u32 {
+        self.counts.windows(2).filter(|w| w[0].0 == a && w[1].0 == b && w[0].1 > 0 && w[1].1 > 0).count() as u32
+    }
+    fn text(&self) -> String {
+        let mut toks: Vec<&str> = vec![];
+        for (t, c) in &self.counts {
+            toks.extend(std::iter::repeat(VOCAB[*t]).take(*c as usize));
+        }
+        toks.join(" ")
+    }
+}
+
+#[derive(Clone, Debug)]
+struct DocsSpec {
+    seed: u64,
+    n: usize,
+    /// 0: short docs; 1: one document per field-norm bucket (sweep); 2: mixed with a few long ones
+    profile: u8,
+    /// share of the documents deleted after indexing (the statistics keep counting them)
+    delete_permille: u64,
+}
+
+fn deleted_ids(spec: &DocsSpec) -> std::collections::HashSet<u64> {
+    let mut out = std::collections::HashSet::new();
+    if spec.delete_permille > 0 && spec.n > 1 {
+        let mut rng = Rng(spec.seed ^ 0xdead_beef);
+        let k = ((spec.n as u64 * spec.delete_permille) / 1000).max(1);
+        for _ in 0..k {
+            out.insert(rng.below(spec.n as u64));
+        }
+    }
+    out
+}
+
+fn gen_docs(spec: &DocsSpec) -> Vec<GenDoc> {
+    let mut rng = Rng(spec.seed);
+    let mut docs = vec![];
+    for j in 0..spec.n {
+        let len: u32 = match spec.profile {
+            0 => 1 + rng.below(12) as u32,
+            1 => {
+                // sweep the buckets: lower bound of bucket j, or a length inside it
+                let id = (j % 112) as u8;
+                let lo = FieldNormReader::id_to_fieldnorm(id).max(1);
+                let hi = FieldNormReader::id_to_fieldnorm(id + 1).max(lo + 1);
+                if rng.chance(1, 2) { lo } else { lo + rng.below((hi - lo) as u64) as u32 }
+            }
+            _ => match rng.below(20) { 0 => 300 + rng.below(3000) as u32, 1 => 40 + rng.below(60) as u32, _ => 1 + rng.below(30) as u32 },
+        };
+        let mut left = len;
+        let mut counts = vec![];
+        for t in 0..5usize {
+            let p = [60u64, 40, 25, 10, 4][t];
+            if left > 0 && rng.below(100) < p {
+                let c = match rng.below(8) { 0..=4 => 1, 5 => 1 + rng.below(5) as u32, 6 => 1 + rng.below(left as u64) as u32, _ => 2 };
+                let c = c.min(left);
+                counts.push((t, c));
+                left -= c;
+            }
+        }
+        if left > 0 {
+            counts.push((5, left));
+        }
+        // a second run of a term already present (tf must add up)
+        if rng.chance(1, 6) && !counts.is_empty() {
+            let t = counts[0].0;
+            counts.push((t, 1));
+        }
+        docs.push(GenDoc { counts });
+    }
+    docs
+}
+
+struct Built {
+    index: Index,
+    body: Field,
+}
+
+fn build(docs: &[GenDoc], cuts: &[usize], deleted: &std::collections::HashSet<u64>) -> Built {
+    let mut sb = Schema::builder();
+    let body = sb.add_text_field("body", TEXT);
+    let id = sb.add_u64_field("id", FAST | tantivy::schema::INDEXED);
+    let index = Index::create_in_ram(sb.build());
+    let mut w: IndexWriter = index.writer_with_num_threads(1, 60_000_000).unwrap();
+    w.set_merge_policy(Box::new(NoMergePolicy));
+    for (j, d) in docs.iter().enumerate() {
+        if cuts.contains(&j) && j > 0 {
+            w.commit().unwrap();
+        }
+        let mut doc = TantivyDocument::default();
+        doc.add_text(body, d.text());
+        doc.add_u64(id, j as u64);
+        w.add_document(doc).unwrap();
+    }
+    w.commit().unwrap();
+    if !deleted.is_empty() {
+        for d in deleted {
+            w.delete_term(Term::from_field_u64(id, *d));
+        }
+        w.commit().unwrap();
+    }
+    w.wait_merging_threads().unwrap();
+    Built { index, body }
+}
+
+struct AllHits;
+struct AllHitsSeg {
+    ord: u32,
+    hits: Vec<(u32, DocId, Score)>,
+}
+impl Collector for AllHits {
+    type Fruit = Vec<(u32, DocId, Score)>;
+    type Child = AllHitsSeg;
+    fn for_segment(&self, ord: u32, _r: &SegmentReader) -> tantivy::Result<AllHitsSeg> {
+        Ok(AllHitsSeg { ord, hits: vec![] })
+    }
+    fn requires_scoring(&self) -> bool {
+        true
+    }
+    fn merge_fruits(&self, fruits: Vec<Vec<(u32, DocId, Score)>>) -> tantivy::Result<Self::Fruit> {
+        Ok(fruits.into_iter().flatten().collect())
+    }
+}
+impl SegmentCollector for AllHitsSeg {
+    type Fruit = Vec<(u32, DocId, Score)>;
+    fn collect(&mut self, doc: DocId, score: Score) {
+        self.hits.push((self.ord, doc, score));
+    }
+    fn harvest(self) -> Self::Fruit {
+        self.hits
+    }
+}
+
+#[derive(Clone, Debug)]
+enum Q {
+    Term(usize),
+    /// two-term phrase, slop 0 (the phrase count plays the role of tf, idf is summed)
+    Phrase(usize, usize),
+    Boost(Box<Q>, f32),
+    Const(Box<Q>, f32),
+    Should(Vec<Q>),
+    Must(Vec<Q>),
+    DisMax(Vec<Q>, f32),
+}
+
+impl Q {
+    fn build(&self, body: Field) -> Box<dyn Query> {
+        match self {
+            Q::Term(t) => Box::new(TermQuery::new(Term::from_field_text(body, VOCAB[*t]), IndexRecordOption::WithFreqs)),
+            Q::Phrase(a, b) => Box::new(tantivy::query::PhraseQuery::new(vec![Term::from_field_text(body, VOCAB[*a]), Term::from_field_text(body, VOCAB[*b])])),
+            Q::Boost(q, b) => Box::new(BoostQuery::new(q.build(body), *b)),
+            Q::Const(q, c) => Box::new(ConstScoreQuery::new(q.build(body), *c)),
+            Q::Should(qs) => Box::new(BooleanQuery::new(qs.iter().map(|q| (Occur::Should, q.build(body))).collect())),
+            Q::Must(qs) => Box::new(BooleanQuery::new(qs.iter().map(|q| (Occur::Must, q.build(body))).collect())),
+            Q::DisMax(qs, tie) => Box::new(DisjunctionMaxQuery::with_tie_breaker(qs.iter().map(|q| q.build(body)).collect(), *tie)),
+        }
+    }
+    fn matches(&self, d: &GenDoc) -> bool {
+        match self {
+            Q::Term(t) => d.tf(*t) > 0,
+            Q::Phrase(a, b) => d.phrase_count(*a, *b) > 0,
+            Q::Boost(q, _) | Q::Const(q, _) => q.matches(d),
+            Q::Should(qs) | Q::DisMax(qs, _) => qs.iter().any(|q| q.matches(d)),
+            Q::Must(qs) => qs.iter().all(|q| q.matches(d)),
+        }
+    }
+    /// RPN of the model tree restricted to the clauses matching `d`; also
+    /// (exactly comparable?, number of float additions/multiplications that may reorder)
+    fn rpn(&self, d: &GenDoc, df: &[u64], fid: u8, out: &mut Vec<String>) -> (bool, usize) {
+        match self {
+            Q::Term(t) => {
+                out.push(format!("t.{}.{fid}.{}", df[*t], d.tf(*t)));
+                (true, 1)
+            }
+            Q::Phrase(a, b) => {
+                out.push(format!("p.{}+{}.{fid}.{}", df[*a], df[*b], d.phrase_count(*a, *b)));
+                (true, 1)
+            }
+            Q::Boost(q, b) => {
+                let r = q.rpn(d, df, fid, out);
+                out.push(format!("b.{}", b.to_bits()));
+                r
+            }
+            Q::Const(q, c) => {
+                let r = q.rpn(d, df, fid, out);
+                out.push(format!("c.{}", c.to_bits()));
+                (true, r.1.min(1))
+            }
+            Q::Should(qs) | Q::Must(qs) | Q::DisMax(qs, _) => {
+                let mut exact = true;
+                let mut units = 0;
+                let mut k = 0;
+                for q in qs {
+                    if q.matches(d) {
+                        let r = q.rpn(d, df, fid, out);
+                        exact &= r.0;
+                        units += r.1;
+                        k += 1;
+                    }
+                }
+                match self {
+                    Q::DisMax(_, tie) => out.push(format!("d.{k}.{}", tie.to_bits())),
+                    _ => out.push(format!("s.{k}")),
+                }
+                (exact && k <= 2, units + 1)
+            }
+        }
+    }
+    fn has_boost(&self) -> bool {
+        match self {
+            Q::Term(_) | Q::Phrase(_, _) => false,
+            Q::Boost(_, _) => true,
+            Q::Const(_, _) => false,
+            Q::Should(qs) | Q::Must(qs) | Q::DisMax(qs, _) => qs.iter().any(|q| q.has_boost()),
+        }
+    }
+    /// a ConstScore clause (below a boolean) that does not match `d`
+    fn has_nonmatching_const(&self, d: &GenDoc) -> bool {
+        match self {
+            Q::Term(_) | Q::Phrase(_, _) => false,
+            Q::Const(q, _) => !q.matches(d),
+            Q::Boost(q, _) => q.has_nonmatching_const(d),
+            Q::Should(qs) | Q::Must(qs) | Q::DisMax(qs, _) => qs.iter().any(|q| q.has_nonmatching_const(d)),
+        }
+    }
+    fn single_clause(&self) -> bool {
+        match self {
+            Q::Term(_) | Q::Const(_, _) | Q::Phrase(_, _) => true,
+            Q::Boost(q, _) => q.single_clause(),
+            _ => false,
+        }
+    }
+    fn to_json(&self) -> Value {
+        match self {
+            Q::Term(t) => json!({"term": t}),
+            Q::Phrase(a, b) => json!({"phrase": [a, b]}),
+            Q::Boost(q, b) => json!({"boost": b.to_bits(), "q": q.to_json()}),
+            Q::Const(q, c) => json!({"const": c.to_bits(), "q": q.to_json()}),
+            Q::Should(qs) => json!({"should": qs.iter().map(|q| q.to_json()).collect::<Vec<_>>()}),
+            Q::Must(qs) => json!({"must": qs.iter().map(|q| q.to_json()).collect::<Vec<_>>()}),
+            Q::DisMax(qs, t) => json!({"dismax": qs.iter().map(|q| q.to_json()).collect::<Vec<_>>(), "tie": t.to_bits()}),
+        }
+    }
+    fn from_json(v: &Value) -> Option<Q> {
+        let list = |v: &Value| -> Option<Vec<Q>> { v.as_array()?.iter().map(Q::from_json).collect() };
+        if let Some(t) = v.get("term") { return Some(Q::Term(t.as_u64()? as usize)); }
+        if let Some(t) = v.get("phrase") { return Some(Q::Phrase(t[0].as_u64()? as usize, t[1].as_u64()? as usize)); }
+        if let Some(b) = v.get("boost") { return Some(Q::Boost(Box::new(Q::from_json(&v["q"])?), f32::from_bits(b.as_u64()? as u32))); }
+        if let Some(b) = v.get("const") { return Some(Q::Const(Box::new(Q::from_json(&v["q"])?), f32::from_bits(b.as_u64()? as u32))); }
+        if let Some(l) = v.get("should") { return Some(Q::Should(list(l)?)); }
+        if let Some(l) = v.get("must") { return Some(Q::Must(list(l)?)); }
+        if let Some(l) = v.get("dismax") { return Some(Q::DisMax(list(l)?, f32::from_bits(v["tie"].as_u64()? as u32))); }
+        None
+    }
+}
+
+fn gen_query(rng: &mut Rng) -> Q {
+    let term = |rng: &mut Rng| Q::Term(match rng.below(10) { 0..=3 => 0, 4 | 5 => 1, 6 | 7 => 2, 8 => 3, _ => 4 });
+    let terms = |rng: &mut Rng, n: usize| -> Vec<Q> {
+        let mut ts: Vec<usize> = (0..5).collect();
+        rng.shuffle(&mut ts);
+        ts.truncate(n);
+        ts.into_iter().map(Q::Term).collect()
+    };
+    let boosts = [2.0f32, 0.5, 3.3, 1.0, 0.1, 7.25];
+    match rng.below(14) {
+        12 => { let a = rng.usize_below(3); let b = (a + 1 + rng.usize_below(2)) % 3; if rng.chance(1, 2) { Q::Phrase(a, 5) } else { Q::Phrase(a, b) } }
+        13 => Q::Boost(Box::new(Q::Phrase(rng.usize_below(2), 5)), 2.0),
+        0 | 1 => term(rng),
+        2 | 3 => Q::Boost(Box::new(term(rng)), boosts[rng.usize_below(6)]),
+        4 => Q::Const(Box::new(term(rng)), [1.0f32, 0.3, 2.5][rng.usize_below(3)]),
+        5 | 6 => { let n = 2 + rng.usize_below(3); Q::Should(terms(rng, n)) }
+        7 => { let n = 2 + rng.usize_below(2); Q::Must(terms(rng, n)) }
+        8 => { let n = 2 + rng.usize_below(2); Q::DisMax(terms(rng, n), [0.0f32, 0.3, 1.0][rng.usize_below(3)]) }
+        9 => Q::Boost(Box::new(Q::Should(terms(rng, 2))), boosts[rng.usize_below(6)]),
+        10 => { let ts = terms(rng, 3); Q::Should(vec![ts[0].clone(), Q::Boost(Box::new(ts[1].clone()), 2.0), Q::Const(Box::new(ts[2].clone()), 1.5)]) }
+        _ => Q::Boost(Box::new(Q::Boost(Box::new(term(rng)), 3.0)), 0.7),
+    }
+}
+
+struct Seg {
+    /// searcher + map id -> (address), fieldnorm id and tf of every term, read through the public API
+    searcher: Searcher,
+    by_id: HashMap<u64, DocAddress>,
+}
+
+fn open_seg(built: &Built) -> Seg {
+    let searcher = built.index.reader().unwrap().searcher();
+    let mut by_id = HashMap::new();
+    for (ord, r) in searcher.segment_readers().iter().enumerate() {
+        let col = r.fast_fields().u64("id").unwrap();
+        for doc in 0..r.max_doc() {
+            by_id.insert(col.first(doc).unwrap(), DocAddress::new(ord as u32, doc));
+        }
+    }
+    Seg { searcher, by_id }
+}
+
+#[allow(clippy::too_many_arguments)]
+fn corpus_case(ctx: &mut Ctx, spec: &DocsSpec, segmentations: &[Vec<usize>], queries: &[Q], explain_samples: usize, rng: &mut Rng) {
+    let docs = gen_docs(spec);
+    let deleted = deleted_ids(spec);
+    let case_base = json!({"docs": [spec.seed.to_string(), spec.n, spec.profile, spec.delete_permille], "segmentations": segmentations});
+    // independent recomputation of the formula's inputs from the generated documents
+    // (with deletes: the statistics keep counting deleted documents, except that a segment whose
+    // documents are ALL deleted is dropped at commit — which depends on the segmentation, so
+    // corpora with deletes use their first segmentation only)
+    let counted = |cuts: &Vec<usize>| -> Vec<bool> {
+        let mut seg_of = vec![0usize; docs.len()];
+        let mut k = 0;
+        for j in 0..docs.len() {
+            if cuts.contains(&j) && j > 0 { k += 1; }
+            seg_of[j] = k;
+        }
+        let mut alive_in_seg = vec![false; k + 1];
+        for j in 0..docs.len() {
+            if !deleted.contains(&(j as u64)) { alive_in_seg[seg_of[j]] = true; }
+        }
+        (0..docs.len()).map(|j| alive_in_seg[seg_of[j]]).collect()
+    };
+    let segmentations: Vec<Vec<usize>> = if deleted.is_empty() { segmentations.to_vec() } else { segmentations[..1].to_vec() };
+    let segmentations = &segmentations[..];
+    let cnt = counted(&segmentations[0]);
+    let n_docs = cnt.iter().filter(|c| **c).count() as u64;
+    let tokens: u64 = docs.iter().zip(&cnt).filter(|(_, c)| **c).map(|(d, _)| d.len() as u64).sum();
+    let df: Vec<u64> = (0..VOCAB.len()).map(|t| docs.iter().zip(&cnt).filter(|(d, c)| **c && d.tf(t) > 0).count() as u64).collect();
+    if n_docs == 0 {
+        return;
+    }
+    // scores of single-clause queries per (query index, doc id) in the first segmentation
+    let mut reference: HashMap<(usize, u64), u32> = HashMap::new();
+    for (si, cuts) in segmentations.iter().enumerate() {
+        let built = build(&docs, cuts, &deleted);
+        if !deleted.is_empty() { ctx.report.count("corpus-with-deletes"); }
+        let seg = open_seg(&built);
+        let searcher = &seg.searcher;
+        let body = built.body;
+        let nseg = searcher.segment_readers().len();
+        ctx.report.count(&format!("segments:{nseg}"));
+        let case = |extra: Value| -> Value { let mut c = case_base.clone(); c["kind"] = json!("corpus"); c["segmentation"] = json!(si); c["at"] = extra; c };
+        // ---- inputs through the public API ----
+        let api_n = searcher.total_num_docs().unwrap_or(u64::MAX);
+        let api_tokens = searcher.total_num_tokens(body).unwrap_or(u64::MAX);
+        ctx.report.case(&format!("stats|{}|{}|{:?}", spec.seed, spec.n, cuts), nseg > 1);
+        if api_n != n_docs || api_tokens != tokens {
+            ctx.report.violation("oracle", "C12:stats-not-partition-sums", format!("searcher statistics over {nseg} segments: total_num_docs {api_n} (documents: {n_docs}), total_num_tokens {api_tokens} (tokens: {tokens})"), case(json!("stats")));
+            continue;
+        }
+        for t in 0..5 {
+            let api_df = searcher.doc_freq(&Term::from_field_text(body, VOCAB[t])).unwrap_or(u64::MAX);
+            if api_df != df[t] {
+                ctx.report.violation("oracle", "C12:doc-freq-not-partition-sum", format!("doc_freq({}) over {nseg} segments = {api_df}, documents containing it: {}", VOCAB[t], df[t]), case(json!({"term": t})));
+            }
+        }
+        // tf and fieldnorm id of every document, public API vs generated documents vs model quantisation
+        let mut fid_of: HashMap<u64, u8> = HashMap::new();
+        for (ord, r) in searcher.segment_readers().iter().enumerate() {
+            let fnr = r.get_fieldnorms_reader(body).unwrap();
+            let col = r.fast_fields().u64("id").unwrap();
+            for doc in 0..r.max_doc() {
+                let id = col.first(doc).unwrap();
+                let fid = fnr.fieldnorm_id(doc);
+                fid_of.insert(id, fid);
+                let len = docs[id as usize].len();
+                if fid != FieldNormReader::fieldnorm_to_id(len) {
+                    ctx.report.violation("oracle", "C12:fieldnorm-id-wrong", format!("document {id} ({len} tokens) has fieldnorm id {fid}, fieldnorm_to_id gives {}", FieldNormReader::fieldnorm_to_id(len)), case(json!({"doc": id})));
+                }
+                ctx.report.count(&format!("fieldnorm-id:{}", match fid { 0..=39 => "0-39 (exact)", 40..=79 => "40-79", 80..=111 => "80-111", _ => "112+" }));
+            }
+            let inv = r.inverted_index(body).unwrap();
+            for t in 0..5 {
+                if let Ok(Some(mut p)) = inv.read_postings(&Term::from_field_text(body, VOCAB[t]), IndexRecordOption::WithFreqs) {
+                    let mut d = p.doc();
+                    while d != tantivy::TERMINATED {
+                        let id = col.first(d).unwrap();
+                        if p.term_freq() != docs[id as usize].tf(t) {
+                            ctx.report.violation("oracle", "C12:tf-wrong", format!("postings tf of {} in document {id} (segment {ord}) = {}, generated {}", VOCAB[t], p.term_freq(), docs[id as usize].tf(t)), case(json!({"doc": id, "term": t})));
+                        }
+                        d = p.advance();
+                    }
+                }
+            }
+        }
+        // the model recomputes everything from the documents themselves (small corpora only)
+        if tokens <= 4000 && si == 0 && deleted.is_empty() {
+            let segtxt: String = {
+                let mut cutset: Vec<usize> = cuts.clone();
+                cutset.sort();
+                let mut parts: Vec<Vec<String>> = vec![vec![]];
+                for (j, d) in docs.iter().enumerate() {
+                    if cutset.contains(&j) && j > 0 { parts.push(vec![]); }
+                    let toks: Vec<String> = d.counts.iter().flat_map(|(t, c)| std::iter::repeat(t.to_string()).take(*c as usize)).collect();
+                    parts.last_mut().unwrap().push(if toks.is_empty() { "-".into() } else { toks.join(".") });
+                }
+                parts.iter().map(|p| p.join(",")).collect::<Vec<_>>().join("|")
+            };
+            let resp = ctx.model.ask(&format!("C12 corpus 0 {segtxt} 0 0 {}", bits(1.0)));
+            let v: Vec<u64> = resp.split(' ').filter_map(|x| x.parse().ok()).collect();
+            ctx.report.count("model-recomputed-stats");
+            if v.len() != 6 || v[0] != api_n || v[1] != api_tokens || v[2] != df[0] {
+                ctx.report.violation("model", "C12:model-stats-differ", format!("model statistics {resp} vs API N={api_n} tokens={api_tokens} n(a)={}", df[0]), case(json!("model-stats")));
+            }
+        }
+        // ---- scores ----
+        for (qi, q) in queries.iter().enumerate() {
+            let query = q.build(body);
+            ctx.report.count(&format!("query:{}", match q { Q::Term(_) => "term", Q::Phrase(_, _) => "phrase", Q::Boost(_, _) => "boost", Q::Const(_, _) => "const", Q::Should(_) => "should", Q::Must(_) => "must", Q::DisMax(_, _) => "dismax" }));
+            let hits = match catch_unwind(AssertUnwindSafe(|| searcher.search(query.as_ref(), &AllHits))) {
+                Ok(Ok(h)) => h,
+                _ => { ctx.report.violation("oracle", "C12:search-failed", format!("scoring collector failed on {}", q.to_json()), case(json!({"query": q.to_json()}))); continue }
+            };
+            let expected_matches = docs.iter().enumerate().filter(|(j, d)| !deleted.contains(&(*j as u64)) && q.matches(d)).count();
+            if hits.len() != expected_matches {
+                // not this property's subject (C03), but scores cannot be compared then
+                ctx.report.notes.push(format!("query {} matched {} documents, expected {expected_matches}", q.to_json(), hits.len()));
+                continue;
+            }
+            let top: HashMap<DocAddress, Score> = match catch_unwind(AssertUnwindSafe(|| searcher.search(query.as_ref(), &TopDocs::with_limit(hits.len().max(1)).order_by_score()))) {
+                Ok(Ok(t)) => t.into_iter().map(|(s, a)| (a, s)).collect(),
+                _ => { ctx.report.violation("oracle", "C12:search-failed", format!("TopDocs failed on {}", q.to_json()), case(json!({"query": q.to_json()}))); continue }
+            };
+            let id_cols: Vec<_> = searcher.segment_readers().iter().map(|r| r.fast_fields().u64("id").unwrap()).collect();
+            let mut explain_left = explain_samples;
+            for (ord, doc, score) in &hits {
+                let id = id_cols[*ord as usize].first(*doc).unwrap();
+                let d = &docs[id as usize];
+                let addr = DocAddress::new(*ord, *doc);
+                let fid = fid_of[&id];
+                let mut rpn = vec![];
+                let (exact, units) = q.rpn(d, &df, fid, &mut rpn);
+                let resp = ctx.model.ask(&format!("C12 tree {n_docs} {tokens} {}", rpn.join(",")));
+                let mv: Vec<u32> = resp.split(' ').filter_map(|x| x.parse().ok()).collect();
+                let at = json!({"query": q.to_json(), "doc": id});
+                let canon = format!("score|{}|{}|{:?}|{}|{id}", spec.seed, spec.n, cuts, q.to_json());
+                ctx.report.case(&canon, d.len() > 1 && n_docs > 1);
+                ctx.report.count(if exact { "score-compare:bit-exact" } else { "score-compare:tolerance" });
+                if mv.len() != 2 {
+                    ctx.report.violation("model", "C12:model-bad-op", format!("model refused {resp}: {}", rpn.join(",")), case(at));
+                    continue;
+                }
+                let (m_score, m_explain) = (f32::from_bits(mv[0]), f32::from_bits(mv[1]));
+                let same = |a: f32, b: f32, exact: bool| if exact { a.to_bits() == b.to_bits() } else { (a - b).abs() <= ulp_tol(units, a, b) };
+                // scoring collector vs model
+                if !same(*score, m_score, exact) {
+                    let key = if q.single_clause() { "C12:score-differs-single-clause" } else { "C12:score-differs" };
+                    ctx.report.violation("model", key, format!("score of document {id} (len {}, fieldnorm id {fid}) for {} over {nseg} segments: real {score:?}/{:08x} model {m_score:?}/{:08x} (N={n_docs} tokens={tokens} df={:?}; {})", d.len(), q.to_json(), score.to_bits(), m_score.to_bits(), &df[..5], if exact { "bit-exact class" } else { "tolerance class" }), case(at.clone()));
+                    continue;
+                }
+                // TopDocs vs scoring collector (same searcher, same query, other collector)
+                match top.get(&addr) {
+                    Some(ts) if same(*ts, *score, exact) => {}
+                    other => {
+                        // recorded defect: TopDocs on a DisjunctionMaxQuery over terms goes through
+                        // block_wand, which SUMS the clause scores whatever the score combiner.
+                        // Attributed only if the TopDocs score is exactly that sum (model-evaluated).
+                        let mut key = "C12:score-depends-on-collector";
+                        let mut extra = String::new();
+                        if let (Q::DisMax(qs, _), Some(ts)) = (q, other) {
+                            if qs.iter().all(|c| matches!(c, Q::Term(_))) {
+                                let mut rpn2 = vec![];
+                                let (ex2, units2) = Q::Should(qs.clone()).rpn(d, &df, fid, &mut rpn2);
+                                let r2 = ctx.model.ask(&format!("C12 tree {n_docs} {tokens} {}", rpn2.join(",")));
+                                if let Some(sum) = r2.split(' ').next().and_then(|x| x.parse::<u32>().ok()).map(f32::from_bits) {
+                                    let close = if ex2 { sum.to_bits() == ts.to_bits() } else { (sum - ts).abs() <= ulp_tol(units2, sum, *ts) };
+                                    if close {
+                                        key = "C12:dismax-topdocs-sums-clauses";
+                                        extra = format!(" [TopDocs score = SUM of the matching clauses ({sum:?}), the dis-max value is {m_score:?}]");
+                                    }
+                                }
+                            }
+                        }
+                        ctx.report.violation("oracle", key, format!("document {id} for {}: TopDocs {:?} vs scoring collector {score:?}{extra}", q.to_json(), other), case(at.clone()));
+                        continue;
+                    }
+                }
+                // segmentation independence, bit-identical for one scoring clause
+                if q.single_clause() {
+                    match reference.get(&(qi, id)) {
+                        None => { reference.insert((qi, id), score.to_bits()); }
+                        Some(b) if *b == score.to_bits() => { ctx.report.count("segmentation-invariance-checked"); }
+                        Some(b) => {
+                            ctx.report.violation("oracle", "C12:score-depends-on-segmentation", format!("document {id} for {}: {:?} under segmentation 0, {score:?} under segmentation {si} ({nseg} segments)", q.to_json(), f32::from_bits(*b)), case(at.clone()));
+                        }
+                    }
+                }
+                // explain
+                if explain_left > 0 && rng.chance(1, 3) {
+                    explain_left -= 1;
+                    ctx.report.count("explain-compared");
+                    match catch_unwind(AssertUnwindSafe(|| query.explain(searcher, addr))) {
+                        Ok(Ok(e)) => {
+                            let ev = e.value();
+                            // explain vs the model's explain expression
+                            if !same(ev, m_explain, exact) {
+                                ctx.report.violation("model", "C12:explain-differs-from-model", format!("explain of document {id} for {}: real {ev:?}/{:08x} model {m_explain:?}/{:08x}", q.to_json(), ev.to_bits(), m_explain.to_bits()), case(at.clone()));
+                            }
+                            // explain vs the score: the same expression unless a boost is involved
+                            // (BoostWeight::explain multiplies afterwards: rounding, ≤ 4 ulp per unit)
+                            let explain_exact = exact && !q.has_boost();
+                            if !same(ev, *score, explain_exact) {
+                                ctx.report.violation("oracle", "C12:explain-disagrees-with-score", format!("document {id} for {}: explain {ev:?} score {score:?}", q.to_json()), case(at.clone()));
+                            } else if q.has_boost() && ev.to_bits() != score.to_bits() {
+                                ctx.report.count("explain-boost-rounding-differs-from-score");
+                            }
+                        }
+                        Ok(Err(e)) => {
+                            ctx.report.violation("oracle", "C12:explain-failed", format!("explain of a matching document {id} for {} returned an error: {e}", q.to_json()), case(at.clone()));
+                        }
+                        Err(p) => {
+                            let msg = p.downcast_ref::<String>().cloned().or_else(|| p.downcast_ref::<&str>().map(|s| s.to_string())).unwrap_or_default();
+                            let key = if (msg.contains("target >= self.doc()") || msg.contains("doc <= target")) && q.has_nonmatching_const(d) { "C12:explain-const-clause-seeks-backwards" } else { "C12:explain-panicked" };
+                            ctx.report.violation("oracle", key, format!("explain of a matching document {id} for {} panicked: {msg}", q.to_json()), case(at.clone()));
+                        }
+                    }
+                }
+            }
+        }
+    }
+}
+
+fn gen_segmentations(rng: &mut Rng, n: usize, how_many: usize) -> Vec<Vec<usize>> {
+    let mut out = vec![vec![]];
+    for _ in 1..how_many {
+        let k = rng.usize_below(6).min(n.saturating_sub(1));
+        let mut cuts: Vec<usize> = (0..k).map(|_| 1 + rng.usize_below(n.max(2) - 1)).collect();
+        cuts.sort();
+        cuts.dedup();
+        out.push(cuts);
+    }
+    out
+}
+
+pub fn replay(ctx: &mut Ctx, case: &Value) {
+    match case["kind"].as_str().unwrap_or("") {
+        "formula" => formula_case(ctx, case["N"].as_u64().unwrap_or(1), case["tokens"].as_u64().unwrap_or(1), case["n"].as_u64().unwrap_or(0), case["fid"].as_u64().unwrap_or(0) as u8, case["tf"].as_u64().unwrap_or(1) as u32, f32::from_bits(case["boost_bits"].as_u64().unwrap_or(0x3f800000) as u32)),
+        "corpus" => {
+            let d = &case["docs"];
+            let (Some(seed), Some(n), Some(profile)) = (d[0].as_str().and_then(|s| s.parse().ok()), d[1].as_u64(), d[2].as_u64()) else { return };
+            let spec = DocsSpec { seed, n: n as usize, profile: profile as u8, delete_permille: d[3].as_u64().unwrap_or(0) };
+            let segs: Vec<Vec<usize>> = case["segmentations"].as_array().map(|a| a.iter().map(|s| s.as_array().map(|x| x.iter().filter_map(|y| y.as_u64().map(|z| z as usize)).collect()).unwrap_or_default()).collect()).unwrap_or_else(|| vec![vec![]]);
+            let queries: Vec<Q> = match Q::from_json(&case["at"]["query"]) { Some(q) => vec![q], None => (0..5).map(Q::Term).collect() };
+            let mut rng = Rng(1);
+            corpus_case(ctx, &spec, &segs, &queries, usize::MAX, &mut rng);
+        }
+        "fn" | "fnid" => part_a(ctx),
+        other => ctx.report.notes.push(format!("replay kind {other:?} unknown")),
+    }
+}
 
 pub fn run(ctx: &mut Ctx) {
-    ctx.report.notes.push("C12: harness not built yet".into());
+    ctx.report.rule = "part A: (statistics, fieldnorm id, tf, boost) tuples, non-trivial = tf>0, id>0, term not in every document; \
+        part B: (corpus, segmentation, query, matching document) tuples, non-trivial = corpus of more than one document and document of more than one token".into();
+    ctx.report.correspondence_obligations = vec![
+        "FieldNormReader::id_to_fieldnorm / fieldnorm_to_id = model (all 256 codes and neighbours)".into(),
+        "Bm25Weight::{for_one_term, boost_by, score, max_score, explain} = model Float32 evaluation, bit for bit, all 256 codes".into(),
+        "Searcher statistics (total_num_docs, total_num_tokens, doc_freq) = sums recomputed from the generated documents = model statsOf/docFreqOf".into(),
+        "postings tf / FieldNormReader::fieldnorm_id = recomputed from the generated documents".into(),
+        "scores of a scoring collector = model score (bit for bit for one clause and ≤2-clause sums/dis-max; 4 ulp per clause otherwise)".into(),
+        "TopDocs score = scoring collector score; single-clause scores bit-identical across 1..6 segmentations".into(),
+        "Query::explain value = model explain value; = score (bit for bit without boosts)".into(),
+    ];
+    if let Some(case) = ctx.replay.clone() {
+        replay(ctx, &case);
+        return;
+    }
+    part_a(ctx);
+    let corpora = ctx.budget(80, 1200);
+    let mut rng = ctx.rng.fork();
+    for c in 0..corpora {
+        let profile = (c % 3) as u8;
+        let n = match profile { 1 => [112usize, 224, 150][rng.usize_below(3)], 0 => [1usize, 2, 40, 300, 1500][rng.usize_below(5)], _ => [60usize, 400, 900][rng.usize_below(3)] };
+        let spec = DocsSpec { seed: rng.next_u64(), n, profile, delete_permille: if c % 5 == 4 { [20u64, 200][rng.usize_below(2)] } else { 0 } };
+        let how_many = 1 + rng.usize_below(3) + if c % 4 == 0 { 2 } else { 0 };
+        let segs = gen_segmentations(&mut rng, n, how_many);
+        let mut queries: Vec<Q> = vec![Q::Term(0), Q::Boost(Box::new(Q::Term(1)), 2.0), Q::Const(Box::new(Q::Term(0)), 0.3)];
+        for _ in 0..5 {
+            queries.push(gen_query(&mut rng));
+        }
+        let mut r2 = rng.fork();
+        corpus_case(ctx, &spec, &segs, &queries, 25, &mut r2);
+        if c < 3 {
+            ctx.report.sample(json!({"part": "B", "docs": [spec.seed.to_string(), spec.n, spec.profile, spec.delete_permille], "segmentations": segs, "queries": queries.iter().map(|q| q.to_json()).collect::<Vec<_>>()}));
+        }
+    }
 }
